@@ -102,6 +102,18 @@ def future_cancel_protocol():
 
 
 @fact
+def future_set_raises_invalid_state():
+    """Future.set_result / set_exception raise InvalidStateError when the future is CANCELLED or FINISHED"""
+    t, o = _tree("concurrent.futures._base")
+    ok = True
+    for n in ("set_result", "set_exception"):
+        m = _method(t, "Future", n)
+        src = ast.unparse(m) if m else ""
+        ok = ok and "InvalidStateError" in src and "CANCELLED" in src
+    return bool(ok), o
+
+
+@fact
 def tracker_client_literals():
     """stdlib ResourceTracker.register/unregister send REGISTER/UNREGISTER through _send; _check_alive writes a PROBE line; _send writes 'cmd:name:rtype\\n' of at most 512 bytes"""
     t, o = _tree("multiprocessing.resource_tracker")
